@@ -59,15 +59,30 @@ pub fn pad_source(n: usize) -> String {
     s
 }
 
-fn symbols_section() -> String {
+/// Every symbol, one canonical `{:?}` line each, sorted by id.
+/// Known finding (KNOWN_FINDINGS.txt, key restore:loop-variable-type-token): the implicit i32 type of a
+/// `for` statement's loop variable carries `TokenRange::default()` = Token::generate(StrId(0), PathId(0)),
+/// i.e. whatever string / path the *process* interned first.  That placeholder is compared in a
+/// section of its own (`loopvar_type_token`) and replaced by the variable's own token here, so that
+/// it cannot hide any other difference of the symbol dump.
+fn symbols_section() -> (String, String) {
     let mut all = symbol_table::get_all();
     all.sort_by_key(|x| x.id);
     let mut s = String::new();
-    for sym in &all {
+    let mut placeholders = String::new();
+    for sym in &mut all {
+        let tok = sym.token;
+        let id = sym.id.0;
+        if let symbol::SymbolKind::Variable(p) = &mut sym.kind
+            && p.loop_variable
+        {
+            placeholders.push_str(&format!("{id}: {}\n", canon(&format!("{:?}", p.r#type.token))));
+            p.r#type.token = (&tok).into();
+        }
         s.push_str(&canon(&format!("{sym:?}")));
         s.push('\n');
     }
-    s
+    (s, placeholders)
 }
 
 fn state_sections(tag: &str, files: &[(String, String)], wm0: &symbol_table::PendingWatermark, out: &mut Vec<(String, String)>) {
@@ -85,7 +100,9 @@ fn state_sections(tag: &str, files: &[(String, String)], wm0: &symbol_table::Pen
             generic_inference_table::pending_len()
         ),
     );
-    add("symbols", symbols_section());
+    let (syms, placeholders) = symbols_section();
+    add("symbols", syms);
+    add("loopvar_type_token", placeholders);
     add("symbol_table_dump", symbol_table::dump());
     // everything the symbol table exports for the whole id range, incl. pending import / bind /
     // msb / connect lists, reference tables and shadowed $sv members
@@ -276,7 +293,9 @@ pub fn run(spec: &Spec) -> Out {
     errors.append(&mut Analyzer::analyze_post_pass2(&ir));
     out.diags = errors.iter().map(diag).collect();
     if spec.sections {
-        out.sections.push(("post2:symbols".to_string(), symbols_section()));
+        let (syms, placeholders) = symbols_section();
+        out.sections.push(("post2:symbols".to_string(), syms));
+        out.sections.push(("post2:loopvar_type_token".to_string(), placeholders));
         out.sections.push(("post2:scopes".to_string(), scope::verif_dump_scopes()));
     }
     ctxs.sort_by_key(|x| x.0);
@@ -416,8 +435,15 @@ pub fn e2e(arg: &str) -> String {
     if b.sections.len() != c.sections.len() {
         return format!("OK {}", json!({"verdict": "diff", "section": "section-count", "info": info}));
     }
+    let mut known: Option<Value> = None;
     for ((n1, s1), (_, s2)) in b.sections.iter().zip(c.sections.iter()) {
         if s1 != s2 {
+            if n1.ends_with(":loopvar_type_token") {
+                if known.is_none() {
+                    known = Some(first_diff(s1, s2));
+                }
+                continue;
+            }
             return format!("OK {}", json!({"verdict": "diff", "section": n1, "detail": first_diff(s1, s2), "info": info}));
         }
     }
@@ -438,6 +464,9 @@ pub fn e2e(arg: &str) -> String {
         if s1 != s2 {
             return format!("OK {}", json!({"verdict": "diff", "section": format!("map:{n1}"), "info": info}));
         }
+    }
+    if let Some(d) = known {
+        return format!("OK {}", json!({"verdict": "diff", "section": "known:loop-variable-type-token", "detail": d, "info": info}));
     }
     format!("OK {}", json!({"verdict": "same", "info": info}))
 }
@@ -465,9 +494,32 @@ pub fn digest(o: &Out) -> u64 {
     fnv(&acc)
 }
 
+/// top-level blocks (module / package / interface ... end*) of an emitted file, sorted
+fn blocks(s: &str) -> Vec<String> {
+    let mut out = vec![];
+    let mut cur = String::new();
+    for line in s.lines() {
+        cur.push_str(line);
+        cur.push('\n');
+        let t = line.trim_start();
+        if t.starts_with("endmodule") || t.starts_with("endpackage") || t.starts_with("endinterface") {
+            out.push(std::mem::take(&mut cur));
+        }
+    }
+    if !cur.trim().is_empty() {
+        out.push(cur);
+    }
+    out.sort();
+    out
+}
+
 /// C24 oracle.  {files, orders:[[..],..], pads:[..]?}: the project analysed once per order (each
 /// in a fresh thread = fresh tables); emitted text, source maps and the diagnostic set must agree
 /// with the first order's.  The digest lets the caller compare separate processes.
+/// Known finding (key order:generic-instance-emission-order): the copies of a generic package /
+/// module are emitted in the order in which their instances were registered, which follows the
+/// processing order of the *using* files.  A file whose emitted text differs only by the order of
+/// its top-level blocks is reported as that known class and does not stop the comparison.
 pub fn order(arg: &str) -> String {
     let v: Value = serde_json::from_str(arg).unwrap();
     let files = load_files(&v);
@@ -475,6 +527,8 @@ pub fn order(arg: &str) -> String {
     let pads: Vec<usize> = v["pads"].as_array().map(|a| a.iter().map(|x| x.as_u64().unwrap() as usize).collect()).unwrap_or_default();
     let mut first: Option<Out> = None;
     let mut ndiag = 0;
+    let mut errs = 0;
+    let mut known: Option<Value> = None;
     for (k, ord) in orders.iter().enumerate() {
         let o = run_thread(Spec {
             files: files.clone(),
@@ -493,29 +547,42 @@ pub fn order(arg: &str) -> String {
         match &first {
             None => {
                 ndiag = o.diags.len();
+                errs = o.diags.iter().filter(|d| d.contains("severity: Some(Error)")).count();
                 first = Some(o);
             }
             Some(f) => {
                 if f.diags != o.diags {
-                    return format!("OK {}", json!({"verdict": "diff", "what": "diagnostics", "order0": orders[0], "order": ord,
+                    return format!("OK {}", json!({"verdict": "diff", "what": "diagnostics", "order0": orders[0], "order": ord, "errors": errs,
                         "detail": first_diff(&f.diags.join("\n"), &o.diags.join("\n"))}));
                 }
+                let mut reordered: Vec<&String> = vec![];
                 for ((n1, s1), (_, s2)) in f.sv.iter().zip(o.sv.iter()) {
                     if s1 != s2 {
-                        return format!("OK {}", json!({"verdict": "diff", "what": format!("sv:{n1}"), "order0": orders[0], "order": ord,
+                        if blocks(s1) == blocks(s2) {
+                            reordered.push(n1);
+                            if known.is_none() {
+                                known = Some(json!({"file": n1, "order0": orders[0], "order": ord, "detail": first_diff(s1, s2)}));
+                            }
+                            continue;
+                        }
+                        return format!("OK {}", json!({"verdict": "diff", "what": format!("sv:{n1}"), "order0": orders[0], "order": ord, "errors": errs,
                             "detail": first_diff(s1, s2)}));
                     }
                 }
                 for ((n1, s1), (_, s2)) in f.maps.iter().zip(o.maps.iter()) {
-                    if s1 != s2 {
-                        return format!("OK {}", json!({"verdict": "diff", "what": format!("map:{n1}"), "order0": orders[0], "order": ord}));
+                    if s1 != s2 && !reordered.contains(&n1) {
+                        return format!("OK {}", json!({"verdict": "diff", "what": format!("map:{n1}"), "order0": orders[0], "order": ord, "errors": errs}));
                     }
                 }
             }
         }
     }
     let f = first.unwrap();
-    let errs = f.diags.iter().filter(|d| d.contains("severity: Some(Error)")).count();
+    let dg = format!("{:x}", digest(&f));
+    if let Some(kn) = known {
+        return format!("OK {}", json!({"verdict": "diff", "what": "known:generic-instance-emission-order", "orders": orders.len(),
+            "errors": errs, "digest": dg, "detail": kn}));
+    }
     format!("OK {}", json!({"verdict": "same", "orders": orders.len(), "diags": ndiag, "errors": errs,
-        "sv_bytes": f.sv.iter().map(|x| x.1.len()).sum::<usize>(), "digest": format!("{:x}", digest(&f))}))
+        "sv_bytes": f.sv.iter().map(|x| x.1.len()).sum::<usize>(), "digest": dg}))
 }
